@@ -21,6 +21,9 @@ def cases():
         out.append((os.path.basename(os.path.dirname(d)), d))
     for p in sorted(glob.glob(os.path.join(V, "selftest", "mutants", "*.patch"))):
         out.append((os.path.basename(p)[:-6], p))
+    # must-pass: harmless edits; any VIOLATION on these is a false alarm
+    for p in sorted(glob.glob(os.path.join(V, "selftest", "neutral", "*.patch"))):
+        out.append(("neutral:" + os.path.basename(p)[:-6], p))
     return out
 
 def main():
@@ -50,6 +53,10 @@ def main():
                 if p.returncode != 0 or viol:
                     hit[pid] = sorted(set(l.split("obligation=")[1].split(" reason=")[0] for l in viol if "obligation=" in l))
             results[name] = {"detected_by": hit, "property": name.split("-")[0] if name[0] == "C" else None}
+            if name.startswith("neutral:"):
+                results[name]["expected"] = "no alarm"
+                print(name, "FALSE ALARM by %s" % sorted(hit) if hit else "no alarm (as required)", flush=True)
+                continue
             own = name.split("-")[0]
             print(name, "DETECTED by", sorted(hit) if hit else "NOTHING", "(own property %s: %s)" % (own, "yes" if own in hit else "no"), flush=True)
         finally:
